@@ -160,8 +160,7 @@ pub(crate) fn handle_submit(
                     if ids.is_empty() {
                         let new_id = job.max_id().map(|x| x.as_num() + 1).unwrap_or(0);
                         if let Some(entries) = entries {
-                            *ids =
-                                IntArray::from_range(new_id, new_id + entries.len() as JobTaskCount)
+                            *ids = IntArray::from_range(new_id, entries.len() as JobTaskCount)
                         } else {
                             *ids = IntArray::from_id(new_id)
                         }
